@@ -26,9 +26,14 @@ impl FnInfo {
     }
     pub fn params(&self) -> Vec<(String, RTy)> {
         let mut v = vec![];
+        for p in &self.sig.generics.params {
+            if let syn::GenericParam::Const(c) = p {
+                v.push((c.ident.to_string(), RTy::Usize));
+            }
+        }
         for a in &self.sig.inputs {
             match a {
-                syn::FnArg::Receiver(_) => v.push(("self".to_string(), RTy::W(self.container.clone()))),
+                syn::FnArg::Receiver(_) => v.push(("self".to_string(), if self.container == "IsZero" { RTy::Bytes } else { RTy::W(self.container.clone()) })),
                 syn::FnArg::Typed(pt) => {
                     fn pname(p: &syn::Pat) -> String {
                         match p {
@@ -158,6 +163,7 @@ const FILES: &[&str] = &[
     "traits/sign_crypt.rs",
     "traits/time_crypt.rs",
     "traits/elgamal.rs",
+    "helpers.rs",
     "secret_key.rs",
     "public_key.rs",
     "signature.rs",
@@ -192,6 +198,33 @@ pub fn emit(parsed: &[(String, syn::File)], out: &std::path::Path) {
             }
         }
         for it in &ast.items {
+            if let syn::Item::Fn(func) = it {
+                // free helper functions (src/helpers.rs); the generator source, the pairing wrappers of the
+                // backends and the serde string guard are outside the fragment
+                let n = func.sig.ident.to_string();
+                if stem == "helpers" && !["get_crypto_rng", "pairing_g1_g2", "pairing_g2_g1", "checked_hex_str"].contains(&n.as_str()) {
+                    let mut consts = file_consts.clone();
+                    for s in &func.block.stmts {
+                        if let syn::Stmt::Item(syn::Item::Const(c)) = s {
+                            consts.insert(c.ident.to_string(), format!("{}__{}__{}", stem, n, c.ident));
+                        }
+                    }
+                    fns.push(FnInfo { container: "free".into(), name: n, file: path.clone(), sig: func.sig.clone(), block: (*func.block).clone(), generics: generics_of(&func.sig), consts });
+                }
+            }
+            if let syn::Item::Impl(im) = it {
+                if let (syn::Type::Slice(_), Some((_, tp, _))) = (&*im.self_ty, &im.trait_) {
+                    if tp.segments.last().unwrap().ident == "IsZero" {
+                        for ii in &im.items {
+                            if let syn::ImplItem::Fn(m) = ii {
+                                let mut g = generics_of(&m.sig);
+                                g.push(("Self".into(), "[u8]".into()));
+                                fns.push(FnInfo { container: "IsZero".into(), name: m.sig.ident.to_string(), file: path.clone(), sig: m.sig.clone(), block: m.block.clone(), generics: g, consts: file_consts.clone() });
+                            }
+                        }
+                    }
+                }
+            }
             if let syn::Item::Impl(im) = it {
                 // inherent methods of the wrapper types, and TryFrom<&[Signature<C>]> (the accumulators)
                 let self_name = match &*im.self_ty {
